@@ -230,12 +230,16 @@ func exec(planJSON []byte, run *core.Run) {
 	auth := getAuthority(p.Sys)
 	// keys reach the parties in marshalled form
 	var pk tkn20.PublicKey
-	if err := pk.UnmarshalBinary(auth.pkBytes); err != nil {
+	pkBuf, mskBuf := append([]byte{}, auth.pkBytes...), append([]byte{}, auth.mskBytes...)
+	defer func() { core.Recycle(pkBuf); core.Recycle(mskBuf) }()
+	if err := pk.UnmarshalBinary(pkBuf); err != nil {
 		run.Violate(comp+".PublicKey.UnmarshalBinary", "rejects-own-encoding", "%v", err)
 		return
 	}
 	var msk tkn20.SystemSecretKey
-	if err := msk.UnmarshalBinary(auth.mskBytes); err != nil {
+	core.Recycle(pkBuf) // buffers are reused as soon as the keys are loaded
+	pkBuf = nil
+	if err := msk.UnmarshalBinary(mskBuf); err != nil {
 		run.Violate(comp+".SystemSecretKey.UnmarshalBinary", "rejects-own-encoding", "%v", err)
 		return
 	}
@@ -302,6 +306,7 @@ func exec(planJSON []byte, run *core.Run) {
 				run.Violate(comp+".AttributeKey.UnmarshalBinary", "rejects-own-encoding", "%v", err)
 				return
 			}
+			core.Recycle(kb)
 			if !k2.Equal(&key) {
 				run.Violate(comp+".AttributeKey", "key-does-not-survive-marshalling", "attributes %v", h.Attrs)
 				return
